@@ -92,6 +92,13 @@ class LambdaVal:
         self.env = env
 
 
+class MatchVal:
+    """Result of a successful regex match: the tuple of capture-group strings (as a boxed tuple value)."""
+
+    def __init__(self, groups):
+        self.groups = groups
+
+
 class ClassVal:
     def __init__(self, name):
         self.name = name
